@@ -322,7 +322,15 @@ func CanonSet(v interface{}) string {
 		c := append([]string{}, ids...)
 		sort.Strings(c)
 
-		return fmt.Sprintf("idset:%q", c)
+		u := c[:0]
+
+		for i, id := range c {
+			if i == 0 || id != c[i-1] {
+				u = append(u, id)
+			}
+		}
+
+		return fmt.Sprintf("idset:%q", u)
 	}
 
 	return Canon(v)
